@@ -70,7 +70,7 @@ def main():
         "engines": [{"name": "wsym", "path": "/verif/engine", "serves_properties": sorted(CLAIMED), "kind_free_text": "bounded symbolic executor for go/ssa written for this task; SMT-LIB2 over pipes to z3 4.8.12 / cvc5 1.0"}],
         "checks": checks,
         "not_applicable": na,
-        "notes": "All checks rebuild their encoding from /repo's working tree on every run. Exit 0 = holds within stated bounds, 1 = VIOLATION, 2 = inconclusive (unsupported construct, solver unknown, vacuous harness).",
+        "notes": "All checks rebuild their encoding from /repo's working tree on every run. Exit 0 = holds within stated bounds, 1 = VIOLATION, 2 = inconclusive (unsupported construct, solver unknown, vacuous harness, native replay disagreeing with the encoding). The H-UPD based checks (C01-C04, C08, C09, C12, C20) additionally rebuild every reachable verdict class natively (real keys, notes, Merkle trees, proofs) and compare the real build's behaviour with the engine's prediction on every run (coverage.traces_validated_against_impl). Self-checks of the machinery: ./check litmus (SSA semantics), ./check vc (real consistency verifier vs algebra / tlog), ./check pcp (ParseCheckpoint contract vs the real code), ./check xsolver (z3 4.8.12 / z3 5.1.0 / cvc5 agreement). Known findings: known_findings.json; native reproductions: native/; independently seeded changes and what caught them: seeded/ and DESIGN.md section 8.",
     }
     json.dump(m, open(os.path.join(ROOT, 'MANIFEST.json'), 'w'), indent=1)
     print("MANIFEST.json:", len(checks), "checks,", len(na), "not applicable")
